@@ -133,7 +133,7 @@ func twinSched(s Sched) Sched {
 
 // ---------------------------------------------------------------------------- C18
 
-const ruleC18 = "every router is a real dv.Router in a synctest bubble on a generated topology (all 30 connected graphs on 2..5 routers, random connected graphs on 6), delivery schedule (per-packet delays, loss of sync Interests inside chaos windows) and fault script (link/router removal and re-addition, in any order); judged at every settling point (2 dead intervals + K=16+(n-1) heart-beats after the last event/chaos window) against breadth-first distances: cost = hop distance, next hop on a shortest path, nothing for unreachable routers, advertisement = table; every advertisement on the wire has all costs < 16; equal topologies give equal next hops (within a run, and across a twin run under another schedule). Non-trivial: some settled topology has a cycle or an equal-cost tie, and >= 1 link/router loss was executed"
+const ruleC18 = "every router is a real dv.Router in a synctest bubble on a generated topology (all 30 connected graphs on 2..5 routers, random connected graphs on 6), delivery schedule (per-packet delays, loss of sync Interests inside chaos windows) and fault script (link/router removal and re-addition, in any order); judged at every settling point (2 dead intervals + K=16+(n-1) heart-beats after the last event/chaos window) against breadth-first distances: cost = hop distance, next hop on a shortest path, nothing for unreachable routers, advertisement = table; every advertisement on the wire has all costs < 16; equal topologies give equal next hops (within a run, and across a twin run under another schedule); while the topology is loop-free no router's advertisement changes more than (n-1) times per topology event (+1). Non-trivial: some settled topology has a cycle or an equal-cost tie, and >= 1 link/router loss was executed"
 
 func execC18(t *testing.T) func(Case) evid.Result {
 	return func(c Case) (r evid.Result) {
